@@ -84,13 +84,65 @@ def gen_base(rng, want="consistent", max_atoms=5, max_conds=7, style=None, exact
     return ["a", "b"], [(("var", "b"), ("var", "a"))]
 
 
-def gen_query(rng, atoms, conds=None):
+def gen_defaults_base(rng, max_atoms=5):
+    """Several defaults with one common antecedent (one tolerance layer with several members):
+    (x1|A), (x2|A), ... plus possibly one more specific conditional."""
+    n_atoms = rng.randint(3, max_atoms)
+    sig = ATOMS[:n_atoms]
+    a_atom = rng.choice(sig)
+    ante = ("top",) if rng.random() < 0.3 else ("var", a_atom)
+    rest = [x for x in sig if x != a_atom or ante == ("top",)]
+    rng.shuffle(rest)
+    k = rng.randint(2, min(4, len(rest)))
+    conds = []
+    for x in rest[:k]:
+        v = ("var", x)
+        conds.append((("not", v) if rng.random() < 0.25 else v, ante))
+    if rng.random() < 0.4:
+        extra = gen_conditional(rng, sig, "literal")
+        if tolerance_partition(sig, conds + [extra], False) is not None:
+            conds.append(extra)
+    return sig, conds
+
+
+def gen_survivor_query(rng, conds):
+    """(x | A1,!B1 ; A2,!B2) where (x|A) is a further default of the base: entailed only through
+    several minimal correction sets."""
+    pick = rng.sample(conds, 2 if len(conds) < 4 or rng.random() < 0.7 else 3)
+    others = [c for c in conds if c not in pick]
+    if not others:
+        others = pick[-1:]
+        pick = pick[:-1]
+    ante = ("or",) + tuple(("and", a, ("not", b)) if a != ("top",) else ("not", b) for b, a in pick)
+    if len(ante) == 2:
+        ante = ante[1]
+    return (rng.choice(others)[0], ante)
+
+
+def gen_query(rng, atoms, conds=None, bias=None):
     r = rng.random()
+    if bias == "conflict" and conds:
+        # mostly queries that conflict with the base (several minimal correction sets)
+        r = rng.choice([0.2, 0.35, 0.35, 0.35, r])
     if conds and r < 0.15:
         return rng.choice(conds)  # a conditional of the base itself
     if conds and r < 0.3:
         b, a = rng.choice(conds)
         return (("not", b), a)
+    if conds and len(conds) >= 2 and r < 0.4:
+        # "one of several defaults fails": the antecedent falsifies at least one of 2-3 base
+        # conditionals, so correction-set enumerations have several minimal sets (Pareto fronts)
+        pick = rng.sample(conds, min(len(conds), rng.choice([2, 2, 3])))
+        ante = ("or",) + tuple(("and", a, ("not", b)) if a != ("top",) else ("not", b) for b, a in pick)
+        others = [c for c in conds if c not in pick]
+        r2 = rng.random()
+        if others and r2 < 0.5:
+            cons = rng.choice(others)[0]  # a further default that should survive
+        elif r2 < 0.8:
+            cons = rng.choice(pick)[0]
+        else:
+            cons = gen_literal(rng, atoms)
+        return (cons, ante)
     if r < 0.6:
         return gen_conditional(rng, atoms, "literal")
     if r < 0.9:
